@@ -9,7 +9,7 @@
    only, sort options by the order-defined functions only, retain options by clean.py only. *)
 From mathcomp Require Import all_ssreflect all_algebra.
 From SsrMultinomials Require Import mpoly.
-From NP Require Import Base Poly Deriv Rearr Reduce Abs Expr OptIrrP GenOptRead BridgeOptRead MulTotal.
+From NP Require Import Base Poly Deriv Rearr Reduce Abs Expr OptIrrP GenOptRead BridgeOptRead MulTotal DerivTotal.
 Set Implicit Arguments. Unset Strict Implicit. Unset Printing Implicit Defensive.
 Import GRing.Theory.
 Local Open Scope ring_scope.
@@ -45,6 +45,12 @@ Proof. exact: ppow_total. Qed.
 Theorem C15_expression_success o1 o2 (e : expr R) r1 :
   leaves_wf e -> eval o1 e = Ok r1 -> exists r2, eval o2 e = Ok r2.
 Proof. exact: eval_opts_success. Qed.
+
+(* differentiation with respect to indeterminates of the polynomial never fails, whatever the options *)
+Theorem C15_derivative_never_fails o p (vs : seq 'I_n) :
+  wfb p -> all (fun v : 'I_n => nat_of_ord v \in names p) vs ->
+  exists r, derivative o p [seq nat_of_ord v | v <- vs] = Ok r.
+Proof. exact: derivative_total. Qed.
 
 Theorem C15_retain_only_layout rc1 rn1 rc2 rn2 ns sh rs (cs : seq (seq R)) q1 q2 :
   from_attributes rc1 rn1 ns sh rs cs = Ok q1 -> from_attributes rc2 rn2 ns sh rs cs = Ok q2 ->
@@ -103,6 +109,7 @@ Print Assumptions C15_neg_never_fails.
 Print Assumptions C15_product_never_fails.
 Print Assumptions C15_power_never_fails.
 Print Assumptions C15_expression_success.
+Print Assumptions C15_derivative_never_fails.
 Print Assumptions C15_retain_only_layout.
 Print Assumptions C15_sort_flags_unread.
 Print Assumptions C15_sort_flags_unread_expression.
